@@ -429,3 +429,279 @@ Section Preserve.
         * intros b0 c0 E. specialize (Hp b0 c0 E). lia.
   Qed.
 End Preserve.
+
+Section Preserve2.
+  Variable ev : st -> nat -> expr -> st * res val.
+  Hypothesis Hext : ev_ext ev.
+  Hypothesis Hwf : ev_wf ev.
+
+  Lemma alloc_plain_ok s c :
+    hok (heap s) -> c < length (heap s) ->
+    hok (heap s ++ [{| cparent := Some c; cdata := []; cfuncs := [] |}]).
+  Proof. intros Hh Hc. apply hok_alloc_child; try assumption; constructor. Qed.
+
+  Lemma meth_wf s c rv name args s' r :
+    meth ev s c rv name args = (s', r) -> hok (heap s) -> c < length (heap s) -> vok (length (heap s)) rv ->
+    hok (heap s') /\ (forall v, r = Ok v -> vok (length (heap s')) v).
+  Proof.
+    unfold meth. intros H Hh Hc Hrv.
+    repeat match type of H with (if ?b then _ else _) = _ => destruct b end.
+    - (* select *)
+      destruct (as_seq rv) as [[src ops]|] eqn:A.
+      + destruct (as_seq_ok _ _ _ _ Hrv A) as [Hs Ho].
+        destruct args as [|f [|? ?]]; try (inversion H; subst; split; [exact Hh|discriminate]).
+        unfold alloc in H. inversion H; subst. cbn [heap]. split; [now apply alloc_plain_ok|].
+        intros v E. injection E as <-. rewrite app_length. cbn [length]. apply vok_iter. split.
+        * eapply Forall_vok_mono; [|exact Hs]. lia.
+        * apply Forall_app. split; [eapply Forall_lop_mono; [|exact Ho]; lia|]. constructor; [cbn; lia|constructor].
+      + inversion H; subst. split; [exact Hh|]. intros v E. destruct rv; discriminate.
+    - (* where *)
+      destruct (as_seq rv) as [[src ops]|] eqn:A.
+      + destruct (as_seq_ok _ _ _ _ Hrv A) as [Hs Ho].
+        destruct args as [|f [|? ?]]; try (inversion H; subst; split; [exact Hh|discriminate]).
+        unfold alloc in H. inversion H; subst. cbn [heap]. split; [now apply alloc_plain_ok|].
+        intros v E. injection E as <-. rewrite app_length. cbn [length]. apply vok_iter. split.
+        * eapply Forall_vok_mono; [|exact Hs]. lia.
+        * apply Forall_app. split; [eapply Forall_lop_mono; [|exact Ho]; lia|]. constructor; [cbn; lia|constructor].
+      + inversion H; subst. split; [exact Hh|]. intros v E. destruct rv; discriminate.
+    - (* any / all *)
+      destruct (as_seq rv) as [[src ops]|] eqn:A.
+      + destruct (as_seq_ok _ _ _ _ Hrv A) as [Hs Ho].
+        destruct args as [|f [|? ?]]; try (inversion H; subst; split; [exact Hh|discriminate]).
+        * destruct (force_search ev _ s src ops None) as [s1 r1] eqn:E1.
+          pose proof (force_search_wf _ Hext Hwf _ _ _ _ _ _ _ E1 Hh Hs Ho ltac:(discriminate)) as Hh1.
+          destruct r1; inversion H; subst; (split; [exact Hh1|]); try discriminate.
+          intros v E. injection E as <-. exact I.
+        * unfold alloc in H.
+          match type of H with context [force_search ev ?w ?s0 src ops ?p] =>
+            destruct (force_search ev w s0 src ops p) as [s1 r1] eqn:E1 end.
+          assert (Hh0 : hok (heap s ++ [{| cparent := Some c; cdata := []; cfuncs := [] |}])) by now apply alloc_plain_ok.
+          assert (Hh1 : hok (heap s1)).
+          { apply (force_search_wf _ Hext Hwf _ _ _ _ _ _ _ E1 Hh0).
+            - cbn [heap]. rewrite app_length. eapply Forall_vok_mono; [|exact Hs]. lia.
+            - cbn [heap]. rewrite app_length. eapply Forall_lop_mono; [|exact Ho]. lia.
+            - cbn [heap]. intros b0 c0 E. injection E as <- <-. rewrite app_length. cbn. lia. }
+          destruct r1; inversion H; subst; (split; [exact Hh1|]); try discriminate.
+          intros v E. injection E as <-. exact I.
+      + inversion H; subst. split; [exact Hh|]. intros v E. destruct rv; discriminate.
+    - (* first *)
+      destruct (as_seq rv) as [[src ops]|] eqn:A.
+      + destruct (as_seq_ok _ _ _ _ Hrv A) as [Hs Ho].
+        destruct args as [|d [|? ?]]; try (inversion H; subst; split; [exact Hh|discriminate]).
+        * destruct (force_first ev s src ops) as [s1 r1] eqn:E1.
+          destruct (force_first_wf _ Hext Hwf _ _ _ _ _ E1 Hh Hs Ho) as [Hh1 Hv1].
+          destruct r1 as [[y|]| | |]; inversion H; subst; (split; [exact Hh1|]); try discriminate.
+          intros v E. injection E as <-. now apply Hv1.
+        * destruct (ev s c d) as [s0 r0] eqn:E0. pose proof (ext_len _ _ (Hext _ _ _ _ _ E0)) as L0.
+          destruct (Hwf _ _ _ _ _ E0 Hh Hc) as [Hh0 Hv0].
+          destruct r0 as [dv| | |]; try (inversion H; subst; split; [exact Hh0|discriminate]).
+          destruct (force_first ev s0 src ops) as [s1 r1] eqn:E1.
+          pose proof (ext_len _ _ (force_first_ext _ Hext _ _ _ _ _ E1)) as L1.
+          destruct (force_first_wf _ Hext Hwf _ _ _ _ _ E1 Hh0
+                      ltac:(eapply Forall_vok_mono; eassumption) ltac:(eapply Forall_lop_mono; eassumption)) as [Hh1 Hv1].
+          destruct r1 as [[y|]| | |]; inversion H; subst; (split; [exact Hh1|]); try discriminate.
+          -- intros v E. injection E as <-. now apply Hv1.
+          -- intros v E. injection E as <-. eapply vok_mono; [exact L1|now apply Hv0].
+      + inversion H; subst. split; [exact Hh|]. intros v E. destruct rv; discriminate.
+    - (* toList *)
+      destruct (as_seq rv) as [[src ops]|] eqn:A.
+      + destruct (as_seq_ok _ _ _ _ Hrv A) as [Hs Ho].
+        destruct args as [|? ?]; try (inversion H; subst; split; [exact Hh|discriminate]).
+        destruct (force ev s src ops) as [s1 r1] eqn:E1.
+        destruct (force_wf _ Hext Hwf _ _ _ _ _ E1 Hh Hs Ho) as [Hh1 Hv1].
+        destruct r1 as [l| | |]; inversion H; subst; (split; [exact Hh1|]); try discriminate.
+        intros v E. injection E as <-. apply vok_list. now apply Hv1.
+      + inversion H; subst. split; [exact Hh|]. intros v E. destruct rv; discriminate.
+    - (* len *)
+      destruct rv as [|b|z|s0|l|kvs|c0|src ops]; destruct args as [|? ?];
+        try (inversion H; subst; split; [exact Hh|]; intros v E; try discriminate; injection E as <-; exact I).
+      apply vok_iter in Hrv as [Hs Ho].
+      destruct (force ev s src ops) as [s1 r1] eqn:E1.
+      destruct (force_wf _ Hext Hwf _ _ _ _ _ E1 Hh Hs Ho) as [Hh1 Hv1].
+      destruct r1 as [l| | |]; inversion H; subst; (split; [exact Hh1|]); try discriminate.
+      intros v E. injection E as <-. exact I.
+    - (* unpack *)
+      destruct rv as [|b|z|s0|l|kvs|c0|src ops]; try (inversion H; subst; split; [exact Hh|discriminate]).
+      apply vok_list in Hrv.
+      destruct (eval_seq ev s c args) as [s1 r1] eqn:E1.
+      pose proof (ext_len _ _ (eval_seq_ext _ Hext _ _ _ _ _ E1)) as L1.
+      destruct (eval_seq_wf _ Hext Hwf _ _ _ _ _ E1 Hh Hc) as [Hh1 Hv1].
+      destruct r1 as [names| | |]; try (inversion H; subst; split; [exact Hh1|discriminate]).
+      match type of H with context [match ?x with _ => _ end] => destruct x as [[|n0 ns]|] end;
+        try (inversion H; subst; split; [exact Hh1|discriminate]).
+      + unfold alloc in H. inversion H; subst. cbn [heap]. split.
+        * apply hok_alloc_child; [exact Hh1|lia| |constructor].
+          apply number_from_ok. eapply Forall_vok_mono; eassumption.
+        * intros v E. injection E as <-. cbn. rewrite app_length. cbn. lia.
+      + destruct (Nat.eqb _ _); [|inversion H; subst; split; [exact Hh1|discriminate]].
+        unfold alloc in H. inversion H; subst. cbn [heap]. split.
+        * apply hok_alloc_child; [exact Hh1|lia| |constructor].
+          apply (combine_ok _ (n0 :: ns) l). eapply Forall_vok_mono; eassumption.
+        * intros v E. injection E as <-. cbn. rewrite app_length. cbn. lia.
+    - (* get *)
+      destruct rv as [|b|z|s0|l|kvs|c0|src ops]; try (inversion H; subst; split; [exact Hh|discriminate]).
+      destruct (eval_seq ev s c args) as [s1 r1] eqn:E1.
+      pose proof (ext_len _ _ (eval_seq_ext _ Hext _ _ _ _ _ E1)) as L1.
+      destruct (eval_seq_wf _ Hext Hwf _ _ _ _ _ E1 Hh Hc) as [Hh1 Hv1].
+      assert (Hd : vok (length (heap s1)) (VDict kvs)) by (eapply vok_mono; eassumption).
+      destruct r1 as [[|k [|d [|? ?]]]| | |]; try (inversion H; subst; split; [exact Hh1|discriminate]).
+      + destruct (is_key k); inversion H; subst; (split; [exact Hh1|]); try discriminate.
+        intros v E. injection E as <-. destruct (dict_get kvs k) eqn:G; [eapply dict_get_ok; eassumption|exact I].
+      + specialize (Hv1 _ eq_refl). inversion Hv1 as [|? ? Hk Hr]; subst. inversion Hr as [|? ? Hdv _]; subst.
+        destruct (is_key k); inversion H; subst; (split; [exact Hh1|]); try discriminate.
+        intros v E. injection E as <-. destruct (dict_get kvs k) eqn:G; [eapply dict_get_ok; eassumption|exact Hdv].
+    - (* switchCase *)
+      destruct rv as [|b|z|s0|l|kvs|c0|src ops]; try (inversion H; subst; split; [exact Hh|discriminate]).
+      destruct args as [|a0 rest]; [inversion H; subst; split; [exact Hh|]; intros v E; injection E as <-; exact I|].
+      match type of H with context [nth_error ?l ?i] => destruct (nth_error l i) as [a|] end;
+        [|inversion H; subst; split; [exact Hh|discriminate]].
+      exact (Hwf _ _ _ _ _ H Hh Hc).
+    - inversion H; subst. split; [exact Hh|discriminate].
+  Qed.
+End Preserve2.
+
+Lemma eval_wf f : ev_wf (eval f).
+Proof.
+  induction f as [|f IH]; intros s c e s' r H Hh Hc.
+  - cbn in H. inversion H; subst. split; [exact Hh|discriminate].
+  - pose proof (eval_ext f) as IHe.
+    cbn [eval] in H. destruct e.
+    + destruct c0; inversion H; subst; (split; [exact Hh|]); intros v E; injection E as <-; exact I.
+    + inversion H; subst. split; [exact Hh|]. intros v E. injection E as <-. exact I.
+    + inversion H; subst. split; [exact Hh|]. intros v E. injection E as <-. now apply lookup_ok.
+    + destruct (eval_seq (eval f) s c es) as [s1 r1] eqn:E1.
+      destruct (eval_seq_wf _ IHe IH _ _ _ _ _ E1 Hh Hc) as [Hh1 Hv1].
+      destruct r1; inversion H; subst; (split; [exact Hh1|]); try discriminate.
+      intros v E. injection E as <-. apply vok_list. now apply Hv1.
+    + apply (eval_map_wf _ IHe IH _ _ _ _ _ _ H Hh Hc). exact I.
+    + destruct (eval f s c e1) as [s1 r1] eqn:E1. pose proof (ext_len _ _ (IHe _ _ _ _ _ E1)) as L1.
+      destruct (IH _ _ _ _ _ E1 Hh Hc) as [Hh1 Hv1].
+      destruct r1 as [av| | |]; try (inversion H; subst; split; [exact Hh1|discriminate]).
+      destruct (eval f s1 c e2) as [s2 r2] eqn:E2. pose proof (ext_len _ _ (IHe _ _ _ _ _ E2)) as L2.
+      destruct (IH _ _ _ _ _ E2 Hh1 ltac:(lia)) as [Hh2 Hv2].
+      destruct r2 as [iv| | |]; inversion H; subst; (split; [exact Hh2|]); try discriminate.
+      intros v E. specialize (Hv1 _ eq_refl). apply (vok_mono _ _ L2) in Hv1.
+      destruct av as [|b|z|s0|l|kvs|c0|src ops]; try discriminate.
+      * destruct iv; try discriminate. unfold list_index in E.
+        destruct (_ || _); [discriminate|]. destruct (nth_error l _) eqn:N; [|discriminate].
+        injection E as <-. apply vok_list in Hv1. rewrite Forall_forall in Hv1. apply Hv1. eapply nth_error_In; eassumption.
+      * destruct iv; try discriminate; (destruct (dict_get kvs _) eqn:G; [|discriminate]);
+          injection E as <-; eapply dict_get_ok; eassumption.
+    + assert (Hgen : forall o', (o' = OAnd \/ o' = OOr -> False) ->
+               forall s' r, (match eval f s c e1 with
+                | (s1, Ok av) => match eval f s1 c e2 with
+                                 | (s2, Ok bv) => (s2, binop_val o' av bv)
+                                 | (s2, Err k) => (s2, Err k) | (s2, Unsup) => (s2, Unsup) | (s2, Fuel) => (s2, Fuel)
+                                 end
+                | (s1, Err k) => (s1, Err k) | (s1, Unsup) => (s1, Unsup) | (s1, Fuel) => (s1, Fuel)
+                end) = (s', r) -> hok (heap s') /\ (forall v, r = Ok v -> vok (length (heap s')) v)).
+      { intros o' _ s'' r' H'.
+        destruct (eval f s c e1) as [s1 r1] eqn:E1. pose proof (ext_len _ _ (IHe _ _ _ _ _ E1)) as L1.
+        destruct (IH _ _ _ _ _ E1 Hh Hc) as [Hh1 Hv1].
+        destruct r1 as [av| | |]; try (inversion H'; subst; split; [exact Hh1|discriminate]).
+        destruct (eval f s1 c e2) as [s2 r2] eqn:E2. pose proof (ext_len _ _ (IHe _ _ _ _ _ E2)) as L2.
+        destruct (IH _ _ _ _ _ E2 Hh1 ltac:(lia)) as [Hh2 Hv2].
+        destruct r2 as [bv| | |]; inversion H'; subst; (split; [exact Hh2|]); try discriminate.
+        intros v E. specialize (Hv1 _ eq_refl). apply (vok_mono _ _ L2) in Hv1. specialize (Hv2 _ eq_refl).
+        destruct o'; destruct av; destruct bv; cbn in E; try discriminate;
+          try (injection E as <-; exact I);
+          try (match type of E with (match ?x with _ => _ end) = _ => destruct x end; try discriminate; injection E as <-; exact I).
+        injection E as <-. apply vok_list. apply vok_list in Hv1. apply vok_list in Hv2.
+        apply Forall_app. split; assumption. }
+      destruct o; try (refine (Hgen _ _ _ _ H); intros [?|?]; discriminate).
+      * destruct (eval f s c e1) as [s1 r1] eqn:E1. pose proof (ext_len _ _ (IHe _ _ _ _ _ E1)) as L1.
+        destruct (IH _ _ _ _ _ E1 Hh Hc) as [Hh1 Hv1].
+        destruct r1 as [av| | |]; try (inversion H; subst; split; [exact Hh1|discriminate]).
+        destruct (truthy av) as [[|]| | |]; try (inversion H; subst; split; [exact Hh1|discriminate]).
+        -- apply (IH _ _ _ _ _ H Hh1). lia.
+        -- inversion H; subst. split; [exact Hh1|]. intros v E. injection E as <-. now apply Hv1.
+      * destruct (eval f s c e1) as [s1 r1] eqn:E1. pose proof (ext_len _ _ (IHe _ _ _ _ _ E1)) as L1.
+        destruct (IH _ _ _ _ _ E1 Hh Hc) as [Hh1 Hv1].
+        destruct r1 as [av| | |]; try (inversion H; subst; split; [exact Hh1|discriminate]).
+        destruct (truthy av) as [[|]| | |]; try (inversion H; subst; split; [exact Hh1|discriminate]).
+        -- inversion H; subst. split; [exact Hh1|]. intros v E. injection E as <-. now apply Hv1.
+        -- apply (IH _ _ _ _ _ H Hh1). lia.
+    + destruct (eval f s c e) as [s1 r1] eqn:E1.
+      destruct (IH _ _ _ _ _ E1 Hh Hc) as [Hh1 Hv1].
+      destruct r1 as [av| | |]; inversion H; subst; (split; [exact Hh1|]); try discriminate.
+      intros v E. destruct o; destruct av; try discriminate; try (injection E as <-; exact I);
+        try (match type of E with (match ?x with _ => _ end) = _ => destruct x end; try discriminate; injection E as <-; exact I).
+    + destruct (eval f s c e) as [s1 r1] eqn:E1.
+      destruct (IH _ _ _ _ _ E1 Hh Hc) as [Hh1 Hv1].
+      destruct r1 as [av| | |]; inversion H; subst; (split; [exact Hh1|]); try discriminate.
+      intros v E. eapply dot_kw_ok; [now apply Hv1|exact E].
+    + destruct (eval f s c e) as [s1 r1] eqn:E1. pose proof (ext_len _ _ (IHe _ _ _ _ _ E1)) as L1.
+      destruct (IH _ _ _ _ _ E1 Hh Hc) as [Hh1 Hv1].
+      destruct r1 as [av| | |]; try (inversion H; subst; split; [exact Hh1|discriminate]).
+      apply (meth_wf _ IHe IH _ _ _ _ _ _ _ H Hh1 ltac:(lia)). now apply Hv1.
+    + destruct (eval f s c e) as [s1 r1] eqn:E1. pose proof (ext_len _ _ (IHe _ _ _ _ _ E1)) as L1.
+      destruct (IH _ _ _ _ _ E1 Hh Hc) as [Hh1 Hv1].
+      destruct r1 as [av| | |]; try (inversion H; subst; split; [exact Hh1|discriminate]).
+      specialize (Hv1 _ eq_refl).
+      destruct av; try (apply (meth_wf _ IHe IH _ _ _ _ _ _ _ H Hh1 ltac:(lia)); exact Hv1).
+      inversion H; subst. split; [exact Hh1|]. intros v E. injection E as <-. exact I.
+    + destruct (eval_seq (eval f) s c pos) as [s1 r1] eqn:E1.
+      pose proof (ext_len _ _ (eval_seq_ext _ IHe _ _ _ _ _ E1)) as L1.
+      destruct (eval_seq_wf _ IHe IH _ _ _ _ _ E1 Hh Hc) as [Hh1 Hv1].
+      destruct r1 as [pv| | |]; try (inversion H; subst; split; [exact Hh1|discriminate]).
+      destruct (eval_kw (eval f) s1 c kw) as [s2 r2] eqn:E2.
+      pose proof (ext_len _ _ (eval_kw_ext _ IHe _ _ _ _ _ E2)) as L2.
+      destruct (eval_kw_wf _ IHe IH _ _ _ _ _ E2 Hh1 ltac:(lia)) as [Hh2 Hv2].
+      destruct r2 as [kv| | |]; try (inversion H; subst; split; [exact Hh2|discriminate]).
+      unfold alloc in H. inversion H; subst. cbn [heap]. split.
+      * apply hok_alloc_child; [exact Hh2|lia| |constructor].
+        apply Forall_app. split; [|now apply Hv2].
+        apply number_from_ok. eapply Forall_vok_mono; [exact L2|now apply Hv1].
+      * intros v E. injection E as <-. cbn. rewrite app_length. cbn. lia.
+    + destruct (eval_seq (eval f) s c es) as [s1 r1] eqn:E1.
+      pose proof (ext_len _ _ (eval_seq_ext _ IHe _ _ _ _ _ E1)) as L1.
+      destruct (eval_seq_wf _ IHe IH _ _ _ _ _ E1 Hh Hc) as [Hh1 Hv1].
+      destruct r1 as [pv| | |]; try (inversion H; subst; split; [exact Hh1|discriminate]).
+      unfold alloc in H. inversion H; subst. cbn [heap]. split.
+      * apply hok_alloc_child; [exact Hh1|lia| |constructor]. apply number_from_ok. now apply Hv1.
+      * intros v E. injection E as <-. cbn. rewrite app_length. cbn. lia.
+    + unfold alloc in H. inversion H; subst. cbn [heap]. split.
+      * apply hok_alloc_child; [exact Hh|exact Hc|constructor|]. constructor; [cbn; lia|constructor].
+      * intros v E. injection E as <-. cbn. rewrite app_length. cbn. lia.
+    + destruct (lookup_func (heap s) c name) as [[body cap]|] eqn:LF; [|inversion H; subst; split; [exact Hh|discriminate]].
+      assert (Hcap : cap < length (heap s)) by (eapply get_func_ok; eassumption).
+      destruct (eval_seq (eval f) s c args) as [s1 r1] eqn:E1.
+      pose proof (ext_len _ _ (eval_seq_ext _ IHe _ _ _ _ _ E1)) as L1.
+      destruct (eval_seq_wf _ IHe IH _ _ _ _ _ E1 Hh Hc) as [Hh1 Hv1].
+      destruct r1 as [pv| | |]; try (inversion H; subst; split; [exact Hh1|discriminate]).
+      destruct (eval_kw (eval f) s1 c kw) as [s2 r2] eqn:E2.
+      pose proof (ext_len _ _ (eval_kw_ext _ IHe _ _ _ _ _ E2)) as L2.
+      destruct (eval_kw_wf _ IHe IH _ _ _ _ _ E2 Hh1 ltac:(lia)) as [Hh2 Hv2].
+      destruct r2 as [kv| | |]; try (inversion H; subst; split; [exact Hh2|discriminate]).
+      apply (invoke_wf _ IH _ _ _ _ _ _ _ H Hh2 ltac:(lia)); [|now apply Hv2].
+      eapply Forall_vok_mono; [exact L2|now apply Hv1].
+    + destruct (eval f s c e) as [s1 r1] eqn:E1.
+      destruct (IH _ _ _ _ _ E1 Hh Hc) as [Hh1 Hv1].
+      destruct r1; inversion H; subst; cbn [tick heap]; (split; [exact Hh1|]); try discriminate.
+      intros v E. injection E as <-. now apply Hv1.
+    + exact (eval_switch_wf _ IHe IH _ _ _ _ _ H Hh Hc).
+    + exact (eval_coalesce_wf _ IHe IH _ _ _ _ _ H Hh Hc).
+    + destruct (eval f s c e1) as [s1 r1] eqn:E1. pose proof (ext_len _ _ (IHe _ _ _ _ _ E1)) as L1.
+      destruct (IH _ _ _ _ _ E1 Hh Hc) as [Hh1 Hv1].
+      destruct r1 as [av| | |]; try (inversion H; subst; split; [exact Hh1|discriminate]).
+      specialize (Hv1 _ eq_refl).
+      destruct av; try (inversion H; subst; split; [exact Hh1|discriminate]).
+      apply (IH _ _ _ _ _ H Hh1). exact Hv1.
+    + exact (eval_select_case_wf _ IHe IH _ _ _ _ _ _ H Hh Hc).
+Qed.
+
+Lemma root_hok d : vok 1 d -> hok (heap (root d)).
+Proof.
+  intros Hd i r H. cbn in H. destruct i as [|i]; cbn in H; [|destruct i; discriminate].
+  injection H as <-. split; [discriminate|]. split; cbn; repeat constructor. exact Hd.
+Qed.
+
+(* Everything that exists keeps seeing exactly what it saw, whatever is evaluated afterwards. *)
+Lemma scope_stable f s c e s' r :
+  eval f s c e = (s', r) -> hok (heap s) -> c < length (heap s) ->
+  hok (heap s') /\ forall c0 n, c0 < length (heap s) -> lookup (heap s') c0 n = lookup (heap s) c0 n.
+Proof.
+  intros H Hh Hc. split; [exact (proj1 (eval_wf f _ _ _ _ _ H Hh Hc))|].
+  intros c0 n Hc0. destruct (eval_ext f _ _ _ _ _ H) as (h & l & Hheap & _).
+  rewrite Hheap. now apply lookup_stable.
+Qed.
